@@ -202,6 +202,11 @@ def search(rec, ctx):
         batch.append((src, stream))
 
     drive(st.randoms(use_true_random=False), gen, ctx.budget(1600, 24000), ctx.hseed("gen"))
+    # spans and debug fields of more than a thousand physical lines (whatever is kept per line must be kept for all of them)
+    LONG = ["f(\n" + " a,\n" * 1200 + ") = 1\n", "x = [\n" + " 1,\n" * 1500 + " 2 3]\n", "v = f\'\'\'{(\n" + " a,\n" * 1300 + ")=}\'\'\'\n", "w = b\'\'\'\n" + "line\n" * 1100 + "é\'\'\'\n",
+            "k = 1\n" * 1050 + "foo(a, b for b in\n    c, d)\n", "s = f\'\'\'{x=}\n" + "t\n" * 1100 + "{y = }\'\'\'\nz = (1 2)\n"]
+    for src in ctx.shard(LONG):
+        batch.append((src, "long-span"))
     # run the children on chunks
     for a in range(0, len(batch), 150):
         chunk = batch[a : a + 150]
